@@ -187,6 +187,7 @@ def test_case(case, note):
     margins = []
 
     def conv(key, blocks, ref1, ref2, scale, nd):
+        scale = max(scale, 1e-2)  # degenerate data: pure round-off
         floor = 1e-9 * scale * max(1.0, (0.1 / h2) ** nd)
         a1, a2 = o1[key], o2[key]
         if blocks is None:
@@ -222,7 +223,7 @@ def test_case(case, note):
     # finite-difference Riemann of gamma, whose symmetries only hold up to
     # truncation error, so the defect must converge (or be at round-off).
     R1, R2 = o1["st_Riemann_down4"], o2["st_Riemann_down4"]
-    floor = 1e-9 * S2 * max(1.0, (0.1 / h2) ** 2)
+    floor = 1e-9 * max(S2, 1e-2) * max(1.0, (0.1 / h2) ** 2)
     for nm, es in (("antisym12", 'abcd...->bacd...'),
                    ("antisym34", 'abcd...->abdc...'),
                    ("pairsym", 'abcd...->cdab...')):
